@@ -81,7 +81,7 @@ package sortio
 // SortReader: input errors are reported (never turned into end-of-stream), every run is sorted before it is
 // spilled, arithmetic on the measured run size is safe, and the spill directory is cleaned up on every exit.
 //@ func sortio.SortReader (ctx, spillTarget, typ, r) (res, err)
-//@   requires r != nil && numCanaryRows != nil && *numCanaryRows >= 1 && sliceio.SpillBatchSize >= 1 && typeNumOut(typ) >= 1
+//@   requires r != nil && numCanaryRows != nil && *numCanaryRows >= 1 && sliceio.SpillBatchSize >= 1 && typeNumOut(typ) >= 1 && typ != nil
 //@   may_panic
 //@   ensures  spill-files-do-not-outlive-creation: spillCleanups <= old(spillCleanups) + 1 && implies(spillCalls > old(spillCalls) || sortCalls > old(sortCalls), spillCleanups == old(spillCleanups) + 1)
 //@   panic_ensures cleanup-on-panic: implies(spillCalls > old(spillCalls) || sortCalls > old(sortCalls), spillCleanups == old(spillCleanups) + 1)
